@@ -126,10 +126,18 @@ def inner_burst(vc, kind):
 
 
 @contract("HyteraIPSC.frame", "okdmr.dmrlib.hytera.hytera_ipsc:HyteraIPSC.from_ipsc_bytes", ["C13", "C19"], stubs=["BitCrcRegister._process_bits", "BPTC19696.encode", "BPTC19696.deinterleave_data_bits"])
-def ipsc_frame(vc, slot, timeslot, call):
+def ipsc_frame(vc, slot, timeslot, call, err=None):
+    """err: a literal bit of the 264-bit burst received inverted (the payload still parses as the indicated kind - the FEC
+    corrects it -, but it is no longer the library's own canonical encoding: 'arbitrary payloads that parse as ...')"""
     kind, frame_type, packet_type = INNER[slot]
     lit = dict(packet_type=packet_type, timeslot=Timeslot[timeslot].value, slot_type=IpscSlotType[slot].value, frame_type=frame_type, call_type=CallType[call].value)
     inner = inner_burst(vc, kind)
+    if err is not None:
+        octets = list(inner)
+        octets[err // 8] = octets[err // 8] ^ (0x80 >> (err % 8))
+        from contracts.hytera import octs
+
+        inner = octs(*octets)
     frame, cc, dst, src, seq = build_frame(vc, lit, inner)
     vc.prove("frame_is_72_octets", len(frame) == 72)
     keep = frame[:]
@@ -152,6 +160,8 @@ def ipsc_frame(vc, slot, timeslot, call):
     vc.prove("both_decoders.same_sequence_number", vc.and_(vc.eq(b1.sequence_no, seq), vc.eq(b2.sequence_no, seq)))
     vc.prove("both_decoders.same_radio_ids", vc.and_(vc.eq(b1.source_radio_id, src), vc.eq(b2.source_radio_id, src), vc.eq(b1._target_radio_id, dst), vc.eq(b2._target_radio_id, dst)))
     vc.prove("both_decoders.same_colour_code", vc.and_(vc.eq(b1.hytera_ipsc.color_code, cc), vc.eq(b2.hytera_ipsc.color_code, cc)))
+    # the decoded frame that travels with the burst serialises to the original octets as well
+    vc.prove("both_decoders.frame_attached_to_the_burst_reserialises_to_the_original_72_octets", vc.and_(vc.eq(b1.hytera_ipsc.as_ipsc_bytes(), keep), vc.eq(b2.hytera_ipsc.as_ipsc_bytes(), keep)))
     vc.prove("frame_argument_unchanged", vc.eq(frame, keep))
 
 
@@ -163,6 +173,8 @@ def _ipsc_shapes(tier):
             for c, call in enumerate(calls):
                 if tier == "thorough" or (i + j + c) % 2 == 0:
                     yield dict(slot=slot, timeslot=ts, call=call)
+    for e in ((5, 200) if tier == "quick" else (0, 5, 50, 97, 166, 200, 263)):
+        yield dict(slot="Rate12Data", timeslot="Timeslot_1", call="GroupCall", err=e)
 
 
 ipsc_frame.shapes = _ipsc_shapes
